@@ -131,35 +131,35 @@ Proof.
 Qed.
 
 (* ---------- a single FCB / FDB value ---------- *)
-Lemma translate_fcb i s v : text_eqb (mnem i) FCB_t = true -> v_is_multi v = false -> v <> VPyNone ->
+Lemma translate_fcb i s v : text_eqb (mnem i) FCB_t = true -> v_is_numeric v = true ->
   translate_operand (OPseudo s v) i = (do a <- fit_value v 2 true; Ok (data_pkg a 1)).
 Proof.
-  intros H1 Hm Hn. cbn [translate_operand]. unfold translate_pseudo. rewrite H1, Hm. destruct v; try reflexivity. now contradiction Hn.
+  intros H1 Hn. cbn [translate_operand]. unfold translate_pseudo. rewrite H1. destruct v; try discriminate. reflexivity.
 Qed.
 
-Lemma translate_fdb i s v : text_eqb (mnem i) FCB_t = false -> text_eqb (mnem i) FDB_t = true -> v_is_multi v = false -> v <> VPyNone ->
+Lemma translate_fdb i s v : text_eqb (mnem i) FCB_t = false -> text_eqb (mnem i) FDB_t = true -> v_is_numeric v = true ->
   translate_operand (OPseudo s v) i = (do a <- fit_value v 4 true; Ok (data_pkg a 2)).
 Proof.
-  intros H0 H1 Hm Hn. cbn [translate_operand]. unfold translate_pseudo. rewrite H0, H1, Hm. destruct v; try reflexivity. now contradiction Hn.
+  intros H0 H1 Hn. cbn [translate_operand]. unfold translate_pseudo. rewrite H0, H1. destruct v; try discriminate. reflexivity.
 Qed.
 
 Theorem fcb_single_value i s v p :
-  text_eqb (mnem i) FCB_t = true -> v_is_multi v = false -> v <> VPyNone ->
+  text_eqb (mnem i) FCB_t = true -> v_is_numeric v = true ->
   translate_operand (OPseudo s v) i = Ok p ->
   (-128 <= value_number v <= 255)%Z /\ cp_size p = 1 /\ emit_value (cp_op p) = Ok [] /\ emit_value (cp_post p) = Ok [] /\
   emit_value (cp_add p) = Ok [Z.to_N (value_number v mod 256)].
 Proof.
-  intros H1 Hm Hn H. rewrite translate_fcb in H by assumption. apply bind_ok in H as [a [Ef H]]. inversion H; subst p.
+  intros H1 Hn H. rewrite translate_fcb in H by assumption. apply bind_ok in H as [a [Ef H]]. inversion H; subst p.
   destruct (fit_value_2_emits _ _ _ Ef) as (R & _ & E). unfold data_pkg; cbn. auto.
 Qed.
 
 Theorem fdb_single_value i s v p :
-  text_eqb (mnem i) FCB_t = false -> text_eqb (mnem i) FDB_t = true -> v_is_multi v = false -> v <> VPyNone ->
+  text_eqb (mnem i) FCB_t = false -> text_eqb (mnem i) FDB_t = true -> v_is_numeric v = true ->
   translate_operand (OPseudo s v) i = Ok p ->
   (-32768 <= value_number v <= 65535)%Z /\ cp_size p = 2 /\ emit_value (cp_op p) = Ok [] /\ emit_value (cp_post p) = Ok [] /\
   emit_value (cp_add p) = Ok [Z.to_N ((value_number v mod 65536) / 256); Z.to_N (value_number v mod 256)].
 Proof.
-  intros H0 H1 Hm Hn H. rewrite translate_fdb in H by assumption. apply bind_ok in H as [a [Ef H]]. inversion H; subst p.
+  intros H0 H1 Hn H. rewrite translate_fdb in H by assumption. apply bind_ok in H as [a [Ef H]]. inversion H; subst p.
   destruct (fit_value_4_emits _ _ Ef) as (R & E). unfold data_pkg; cbn. auto.
 Qed.
 
@@ -175,10 +175,10 @@ Proof.
 Qed.
 
 Theorem fcb_out_of_range_rejected i s v :
-  text_eqb (mnem i) FCB_t = true -> v_is_multi v = false -> v <> VPyNone ->
+  text_eqb (mnem i) FCB_t = true -> v_is_numeric v = true ->
   (256 <= value_number v \/ value_number v < -128)%Z -> translate_operand (OPseudo s v) i = Diag 21.
 Proof.
-  intros H1 Hm Hn Hr. rewrite translate_fcb by assumption. rewrite (fit_value_out_of_range v 2 true); [reflexivity|].
+  intros H1 Hn Hr. rewrite translate_fcb by assumption. rewrite (fit_value_out_of_range v 2 true); [reflexivity|].
   change (16 ^ Z.of_N 2)%Z with 256%Z. change (- (256 / 2))%Z with (-128)%Z. exact Hr.
 Qed.
 
